@@ -1,7 +1,7 @@
 """C08 — simplification keeps the meaning, only removes, reaches a valid fixed point."""
 import random
 
-from harness import common, core, vers
+from harness import common, core, dense, vers
 
 
 def is_sublist(a, b):
@@ -134,12 +134,15 @@ def run(ctx):
                         viol(f"from_string({text2!r}, simplify=True) differs from the simplification of the version-sorted list {rtxt!r}: {o2}", inputs=dict(text=text2))
             if ci % 1201 == 0 and len(samples) < 8:
                 samples.append(dict(scheme=s.name, constraints=txt, simplified=rtxt))
+    # ---- the same statement on dense families of versions (one edit apart, equal under another spelling): harness/dense.py
+    dense_ev, dense_per = dense.run(ctx, "C08", r, lambda what, **kw: violations.append(dict(kind="counterexample", stage="search", what=what, **kw)))
+    evals += dense_ev
     if not violations and (diffs or not proofs["ok"]):
         what = ("theorems of Props/C08.v no longer check: " + str(proofs.get("error"))[-400:]) if not proofs["ok"] else \
             ("model and implementation differ: " + str(diffs[0]))
         violations.append(dict(kind="no-failing-input-found", stage="proof" if not proofs["ok"] else "correspondence",
                                theorem_or_stream="Props/C08.v" if not proofs["ok"] else "VersionConstraint.simplify vs Model.simplify", what=what, diffs=diffs[:10]))
-    cov = dict(evaluations=evals, distinct_nontrivial=len(nontrivial),
+    cov = dict(evaluations=evals, dense_pairs=dense_per, distinct_nontrivial=len(nontrivial),
                rule=f"all 6^n comparator patterns n<={N} over distinct increasing versions (whether or not well-formed) plus random patterns up to length {maxlen}; "
                     "for each: simplify() compared with the model, membership before/after compared at every probe position with the Coq spec `mem`, sub-list, validation, "
                     "idempotence, inserted exact duplicates, and the from_string(simplify=True) wiring; non-trivial = distinct patterns with >=3 constraints",
